@@ -24,7 +24,9 @@ RULE = ('(paths) every sign pattern x magnitude template of up to k fills (k<=4 
         'Non-trivial = both sides traded, non-zero open-side commission and net != 0 at a check; distinct = '
         'distinct (sign pattern, trajectory, values).')
 ASSUMPTIONS = [
-    'whole-number quantities (as Transaction documents), positive prices, non-negative commissions',
+    'quantities are whole numbers (as Transaction documents) or, in a quarter of the random ladders, non-integers of at '
+    'least one unit; sub-unit fills are outside the domain (the code documents a fill whose floor is zero as "no '
+    'quantity" and ignores it), positive prices, non-negative commissions',
     'floating point: identities asserted to 1e-9 of the gross traded value',
     'paths up to 6 fills enumerated, longer ladders sampled',
 ]
@@ -36,7 +38,7 @@ class Episode(object):
         self.fills = []
 
     def add(self, qty, price, comm):
-        self.fills.append((qty, F(price), F(comm)))
+        self.fills.append((F(qty), F(price), F(comm)))
 
     @property
     def net(self):
@@ -194,6 +196,8 @@ def run_case(case):
                         pos_.total_pnl, pos_.realised_pnl, pos_.unrealised_pnl):
                     raise Violation('fill %d: holdings report P&L for %s differs from the position' % (i, aa))
     cls.add(driver)
+    if case.get('fractional'):
+        cls.add('fractional_quantities')
     cls.add('k_%d' % min(len(fills), 7))
     if len(sides) == 2:
         cls.add('both_sides')
@@ -246,29 +250,32 @@ def ladders(draw):
     na = 1 if driver == 'position' else draw(st.integers(1, 3))
     net = [0] * na
     fills, marks = [], []
+    frac = draw(st.sampled_from([False, False, False, True]))      # non-integer quantities of at least one unit
     comm = st.one_of(st.just(0.0), st.floats(0, 50).map(lambda x: round(x, 4)), st.sampled_from([0.01, 1.0]))
     for i in range(n):
         a = draw(st.integers(0, na - 1))
         mode = draw(st.sampled_from(['any', 'any', 'any', 'close', 'flip', 'reduce']))
         mag = draw(st.one_of(gen.small_qty, st.integers(1, 1000)))
+        if frac:
+            mag = draw(st.sampled_from([1.5, 2.5, 4.25, 10.75, 1.0, 3.0, 100.5]))
         if mode == 'close' and net[a] != 0:
             qty = -net[a]
         elif mode == 'flip' and net[a] != 0:
             qty = -net[a] - (mag if net[a] > 0 else -mag)
-        elif mode == 'reduce' and abs(net[a]) > 1:
-            qty = -(net[a] // 2) if net[a] > 0 else (-net[a]) // 2
+        elif mode == 'reduce' and abs(net[a]) > 2:
+            qty = -(int(abs(net[a])) // 2) * (1 if net[a] > 0 else -1)
         else:
             qty = mag if draw(st.booleans()) else -mag
-        if qty == 0:
-            qty = 1
+        if abs(qty) < 1:          # sub-unit fills are outside the domain (documented as "no quantity" by the code)
+            qty = (1.5 if frac else 1) * (1 if qty >= 0 else -1)
         net[a] += qty
         fills.append([a, qty, draw(gen.prices), draw(comm)])
         if draw(st.sampled_from([True, False, False])):
             marks.append([i, draw(st.integers(0, na - 1)), draw(gen.prices)])
-    return {'driver': driver, 'fills': fills, 'marks': marks}
+    return {'driver': driver, 'fills': fills, 'marks': marks, 'fractional': frac}
 
 
 PARTS = [
     Part('paths', 'sweep', run_case, sweep=paths, quick_shards=8, exhaustive=True),
-    Part('random', 'hyp', run_case, strategy=ladders(), quick=1500, thorough=320000, quick_shards=8),
+    Part('random', 'hyp', run_case, strategy=ladders(), quick=4000, thorough=320000, quick_shards=8),
 ]
